@@ -96,6 +96,21 @@ Theorem pretty_cycle_marker : forall f h path quote v,
 Proof. exact Proofs.Pretty.pretty_cycle_marker. Qed.
 Print Assumptions pretty_cycle_marker.
 
+(* arrays as [a, b], objects as {"k": v}, nested strings double-quoted: a document (a finite
+   tree, Spec/Pure.v doc_at) renders as the pure function jrender of its JSON value -- in
+   full, without a cycle marker *)
+Theorem pretty_document : forall h p v j, doc_at h p v j -> Pos.le p (next h) ->
+  pretty_string h v = Some (jrender false j) /\
+  (forall f path check, (Pos.to_nat p < f)%nat -> Proofs.Pretty.path_above p path ->
+     pretty_fuel f h path true check v = Some (jrender true j)).
+Proof. exact Proofs.Pretty.pretty_string_doc. Qed.
+Print Assumptions pretty_document.
+
+Theorem pretty_new_value : forall j h v h',
+  new_value j h = (v, h') -> pretty_string h' v = Some (jrender false j).
+Proof. exact Proofs.Pretty.pretty_new_value. Qed.
+Print Assumptions pretty_new_value.
+
 (* ---------------------------------------------------------------- examples *)
 
 (* a = [1]; a[0] = a : cell 2 holds the header of backing 3 = [cell 2] *)
@@ -180,3 +195,10 @@ Proof. split; vm_compute; reflexivity. Qed.
 
 Example print_renders_ex : exists ps, renders cyc_heap [2; 1]%positive ps.
 Proof. apply print_renders. apply Proofs.Pretty.wf_heapb_sound. vm_compute. reflexivity. Qed.
+
+Definition ex_doc : jvalue :=
+  JObj [(bs "a", JArr [JNum (f_of_Z 1); JStr (bs "x"); JArr []]); (bs "b", JObj [])].
+Example pretty_new_value_ex :
+  pretty_string (snd (new_value ex_doc empty_heap)) (fst (new_value ex_doc empty_heap)) =
+    Some (bs "{""a"": [1, ""x"", []], ""b"": {}}").
+Proof. rewrite (pretty_new_value ex_doc empty_heap _ _ (surjective_pairing _)). vm_compute. reflexivity. Qed.
